@@ -230,6 +230,7 @@ func ruleDispatch(c *Ctx) {
 		// (c') accessor coupling: value() is nil only when the "value" member is absent
 		b.checkValueAccessor(l)
 		b.checkStringAccessors(l)
+		b.checkOperationShape(l)
 
 		if b.Name != "v5" {
 			continue
@@ -1466,4 +1467,90 @@ func (b *Body) fieldDomainExhausted(v ssa.Value, excluded map[int64]bool) bool {
 		}
 	}
 	return true
+}
+
+
+// checkOperationShape: an operation is a map from member name to raw JSON, so
+// unknown members are ignored and member names are matched case-sensitively
+// (a struct with json tags would match them case-insensitively); a patch is a
+// slice of operations in document order.
+func (b *Body) checkOperationShape(l *Ledger) {
+	key := "Operation is map[string]*RawMessage and Patch is []Operation (unknown members ignored, names case-sensitive, order kept)"
+	op := b.Lib.Type("Operation")
+	pt := b.Lib.Type("Patch")
+	bad := ""
+	if op == nil || pt == nil {
+		bad = "types Operation / Patch not found"
+	} else {
+		m, ok := op.Type().Underlying().(*types.Map)
+		if !ok {
+			bad = "Operation is not a map type: member names would be matched by the codec's case-insensitive struct-field rules"
+		} else {
+			if !isStringType(m.Key()) {
+				bad = "Operation's key type is not string"
+			}
+			pe, ok := m.Elem().(*types.Pointer)
+			if !ok || !isByteSlice(pe.Elem()) {
+				bad = "Operation's values are not pointers to raw JSON (a null member could not be told from an absent one)"
+			}
+		}
+		sl, ok := pt.Type().Underlying().(*types.Slice)
+		if !ok || !types.Identical(sl.Elem(), op.Type()) {
+			bad = "Patch is not a slice of Operation"
+		}
+	}
+	if bad != "" {
+		l.add("R-DISPATCH", b.Name, key, "", Violated, bad, true)
+	} else {
+		l.add("R-DISPATCH", b.Name, key, "", Discharged, "type shapes read from the type-checked package", false)
+	}
+	// Kind(): "unknown" unless the op member is present, non-null and a string
+	kind := b.method(b.Lib, "Operation", "Kind")
+	key = "Operation.Kind() yields the decoded op member only when it is present and not null"
+	if kind == nil {
+		l.add("R-DISPATCH", b.Name, key, "", Undecided, "accessor not found", false)
+		return
+	}
+	var lk *ssa.Lookup
+	allInstrs(kind, func(i ssa.Instruction) {
+		if x, ok := i.(*ssa.Lookup); ok && x.CommaOk {
+			if k, ok := strConst(x.Index); ok && k == "op" {
+				lk = x
+			}
+		}
+	})
+	if lk == nil {
+		l.add("R-DISPATCH", b.Name, key, b.rel(kind.Pos()), Violated, "Kind does not look the op member up with comma-ok", true)
+		return
+	}
+	var okv, objv ssa.Value
+	for _, ex := range extractOf(lk, 1) {
+		okv = ex
+	}
+	for _, ex := range extractOf(lk, 0) {
+		objv = ex
+	}
+	bad = ""
+	for _, r := range liveReturns(kind) {
+		if s, isS := strConst(retVal(r, 0)); isS && s == "unknown" {
+			continue
+		}
+		present, nonNull := false, false
+		for _, f := range dominatingFacts(r.Block()) {
+			if okv != nil && f.V == okv && f.True {
+				present = true
+			}
+		}
+		if objv != nil && knownNonNilAt(objv, r.Block()) {
+			nonNull = true
+		}
+		if !present || !nonNull {
+			bad = "a decoded kind is returned at " + b.posOf(r) + " without the member being known present and non-null"
+		}
+	}
+	if bad != "" {
+		l.add("R-DISPATCH", b.Name, key, b.rel(kind.Pos()), Violated, bad, true)
+	} else {
+		l.add("R-DISPATCH", b.Name, key, b.rel(kind.Pos()), Discharged, "every return other than the constant \"unknown\" is dominated by ok && obj != nil", true)
+	}
 }
